@@ -316,7 +316,7 @@ def gen_scenario(rng, prof=None, force_selflock=None):
         if dt2['v'] > 0:
             sched.append({'op': 'run', 'dt': dt2, 'T': mulq(dt2, rng.randint(3, max(4, n // 2)))})
     if rng.random() < p['p_reset']:
-        sched += [{'op': 'reset'}, {'op': 'reapply'}]
+        sched += [{'op': 'newpowertrain' if rng.random() < p.get('p_newpowertrain', 0.35) else 'reset'}, {'op': 'reapply'}]
         if rng.random() < p.get('p_setload', 0.4):
             # another load function for the second history (same solver or a new one)
             l2 = dict(load)
@@ -332,7 +332,7 @@ def gen_scenario(rng, prof=None, force_selflock=None):
         sched.insert(idx_, {'op': 'remount'})
     if len([o_ for o_ in sched if o_['op'] == 'run']) >= 2 and rng.random() < p.get('p_report', 0.3):
         idx_ = [k_ for k_, o_ in enumerate(sched) if o_['op'] == 'run'][1]
-        if sched[idx_ - 1]['op'] not in ('reapply', 'reset', 'newsolver', 'setload'):
+        if sched[idx_ - 1]['op'] not in ('reapply', 'reset', 'newpowertrain', 'newsolver', 'setload'):
             sched.insert(idx_, {'op': 'report', 'seed': rng.randrange(1 << 30)})       # live state reported in other units (sim/build.py)
     if rng.random() < p.get('p_badrun', 0.12):
         # calls of Solver.run rejected at the argument checks, anywhere in the schedule
